@@ -347,6 +347,7 @@ pub fn run(ctx: &Ctx) -> i32 {
     for (i, seq) in seqs.iter().enumerate() {
         let r = runner.run_sequence(seq);
         rep.evaluations += 1;
+        crate::engine::PROGRESS.fetch_add(1, std::sync::atomic::Ordering::Relaxed);
         let nontriv = seq.iter().any(|(c, s)| *c != Client::GoodGet || *s != Sock::Valid);
         if nontriv {
             rep.nontrivial.insert(hash_of(seq));
